@@ -398,7 +398,7 @@ def native_server_messages() -> tuple[bool, str]:
             if seen != [q, b"\x3e\x00"] or n_replies != want_replies:
                 return True, (f"tester wrote {q.hex()} and 3e00: the ECU model received "
                               f"{[x.hex() for x in seen]}, {n_replies} replies were sent")
-        return False, "261 requests are handed over byte-exact and answered once each"
+        return False, f"{len(reqs)} requests are handed over byte-exact and answered once each (suppressed ones not at all)"
     return asyncio.run(go())
 
 
